@@ -303,7 +303,7 @@ Example c17_example :
   valid_set p = true /\ transportable p = true /\ length (kv_pairs p) = 9%nat
   /\ all_fit16 (kv_pairs p) = true
   /\ unmarshal_kv q = Some p /\ unmarshal_url (singletons q) = Some p /\ unmarshal_bin (frames q) = Some p
-  /\ marshal_bin_checked (@rev _) p = Some (frames q)
+  /\ marshal_kv p = Some (kv_pairs p) /\ marshal_bin_checked (@rev _) p = Some (frames q)
   /\ validate p = Some p
   /\ effective (compress_config p (mkC false 1 true 3)) = Enabled false 6%Z 15%Z
   /\ effective (compress_config p (mkC true 9 false 30)) = Enabled false 6%Z 15%Z.
@@ -315,6 +315,11 @@ Example c17_example_reject :
   /\ validate (mkP [] (s2b "gzip") None None [] false [] 0 0) = None
   /\ validate (mkP [] comp_pm (Some 10%Z) None [] false [] 0 0) = None
   /\ validate (mkP [] comp_cto (Some 6%Z) (Some 33%Z) [] false [] 0 0) = None
+  /\ validate (mkP [] [] (Some 10%Z) None [] false [] 0 0) = None
+  /\ validate (mkP [] [] None (Some (-1)%Z) [] false [] 0 0) = None
+  /\ validate (mkP [] [] None None [255] false [] 0 0) = None
+  /\ marshal_kv (mkP [] [] None None [] false [237; 160; 128] 0 0) = None
+  /\ unmarshal_kv [(s2b "x", [255])] = None
   /\ read_bin [0; 1; 97; 0; 1; 255] = None
   /\ read_bin ([0; 1; 97; 0; 0] ++ [0; 1; 97; 0; 0]) = None.
 Proof. vm_compute. repeat split; reflexivity. Qed.
